@@ -248,3 +248,105 @@ def relationships_contract(variant):
                     expr_hooks=({"obj['id']": subscript_id} if variant == 'id' else {}),
                     assumptions=['callee contract of self.query (property C12): exactly the stored objects satisfying every filter; objects abstracted to identities, results to sets of identities '
                                  '(each stored (id, version) is one identity: nothing is said about order or repetition of the returned list)'])
+
+
+# ------------------------------------------------------------------ CompositeDataSource.all_versions / query: every member is asked, with the composite's own filters and the
+# ones handed down, and the answer is the union of the members' answers (C18: "filters attached to the composite apply to every member", "de-duplicated union").
+SELF_F = z3.Const('self.filters.view', E.SetS); DOWN_F = z3.Const('_composite_filters.view', E.SetS); DOWN_NONE = z3.Bool('_composite_filters.isnone')
+MEMBER_ANS = z3.Function('member.answer', z3.IntSort(), E.SetS)        # what member i answers (identities of (id, version) objects) when asked with the filters it is given
+N_MEMBERS = z3.Int('n_members')
+
+
+def composite_federation_contract(method):
+    """method: 'all_versions' | 'query'"""
+    from vf.pyvc.lib import rebinding
+    down = Val('opt:set', (DOWN_NONE, SetV(DOWN_F)))
+    members = Seq(lambda i: Val('member', i), N_MEMBERS)
+    u0 = z3.FreshConst(E.S, 'u')
+    down_nonempty = z3.Exists([u0], DOWN_F[u0])
+
+    def h_filterset(x, e, p, site):
+        if e.args or e.keywords: raise Unsupported(site + ' FilterSet with arguments')
+        yield p, Val('set', E.EMPTY, x={'nonempty': z3.BoolVal(False)})
+
+    def m_fs_add(x, recv, args, p):
+        """callee contract of FilterSet.add (proved in contracts/filters.py): view' = view | view(argument)"""
+        a = args[0]; u = z3.FreshConst(E.S, 'u')
+        if a.sort == 'opt:set':          # add(None) adds nothing (FilterSet.add returns at once for a falsy argument)
+            return SetV(z3.Lambda([u], z3.Or(recv.t[u], z3.And(z3.Not(a.t[0]), a.t[1].t[u]))))
+        if a.sort != 'set': raise Unsupported('FilterSet.add of ' + a.sort)
+        return SetV(z3.Lambda([u], z3.Or(recv.t[u], a.t[u])))
+
+    def m_member_call(x, recv, args, e, p, site):
+        kws = {k.arg: k.value for k in e.keywords}
+        if args or set(kws) - {'stix_id', 'query', '_composite_filters'}: raise Unsupported(site + ' member call shape')
+        if '_composite_filters' not in kws:
+            x.oblige('call(member): the composite\'s filters are handed to the member', p.pc, z3.BoolVal(False), p.exact, 'call-requires'); cf = None
+        else:
+            outs = list(x.ev(kws['_composite_filters'], p))
+            if len(outs) != 1 or isinstance(outs[0][1], Exc) or outs[0][1].sort not in ('set', 'opt:set', 'none'): raise Unsupported(site + ' _composite_filters argument')
+            u = z3.FreshConst(E.S, 'u'); v_ = outs[0][1]
+            if v_.sort == 'set': cf = v_.t
+            elif v_.sort == 'none': cf = E.EMPTY
+            else: cf = z3.Lambda([u], z3.And(z3.Not(v_.t[0]), v_.t[1].t[u]))          # None or a FilterSet: None hands down nothing
+            x.oblige('call(member): the filters handed to the member include every filter attached to the composite and every filter handed down to it', p.pc,
+                     z3.ForAll([u], z3.Implies(z3.Or(SELF_F[u], z3.And(z3.Not(DOWN_NONE), DOWN_F[u])), cf[u])), p.exact, 'call-requires')
+            x.oblige('call(member): nothing but those filters is added', p.pc, z3.ForAll([u], z3.Implies(cf[u], z3.Or(SELF_F[u], z3.And(z3.Not(DOWN_NONE), DOWN_F[u])))), p.exact, 'call-requires')
+        for name in ('stix_id', 'query'):
+            if name in kws and ast.unparse(kws[name]) != name and not (name == 'query' and ast.unparse(kws[name]) in ('query',)):
+                x.oblige(f'call(member): the caller\'s own `{name}` is forwarded', p.pc, z3.BoolVal(False), p.exact, 'call-requires')
+        yield p, SetV(MEMBER_ANS(recv.t))
+
+    def m_extend(x, recv, args, p):
+        if args[0].sort != 'set': raise Unsupported('extend with ' + args[0].sort)
+        base = E.EMPTY if recv.sort == 'litlist' and not recv.x else recv.t
+        if base is None: raise Unsupported('extend of a non-empty literal list')
+        u = z3.FreshConst(E.S, 'u')
+        return SetV(z3.Lambda([u], z3.Or(base[u], args[0].t[u])))
+
+    def h_len(x, e, p, site):
+        for p1, vs in x.ev_seq(list(e.args), p):
+            if isinstance(vs, Exc): yield p1, vs
+            elif vs[0].sort == 'set':
+                n = z3.FreshConst(z3.IntSort(), 'len'); u = z3.FreshConst(E.S, 'u')
+                yield p1.fork(n >= 0, (n > 0) == z3.Exists([u], vs[0].t[u])), Int(n)
+            elif vs[0].sort == 'litlist': yield p1, Int(len(vs[0].x))
+            else: raise Unsupported(site + ' len of ' + vs[0].sort)
+
+    def h_dedup(x, e, p, site):
+        """callee contract of utils.deduplicate (proved in this file): the same set of (id, version) identities, each once"""
+        for p1, vs in x.ev_seq(list(e.args), p):
+            yield p1, (vs if isinstance(vs, Exc) else vs[0])
+
+    def h_has(x, e, p, site): yield p, Bool(N_MEMBERS > 0)
+
+    def attr_ds(x, o, p, site): yield p, members
+
+    def attr_filters(x, o, p, site): yield p, SetV(SELF_F)
+
+    def inv(x, env, i, it):
+        s = z3.String('s!fed'); j = z3.Int('j!fed')
+        ad = env['all_data']
+        view = E.EMPTY if ad.sort == 'litlist' and not ad.x else ad.t
+        return z3.ForAll([s], view[s] == z3.Exists([j], z3.And(0 <= j, j < i, MEMBER_ANS(j)[s])))
+
+    def ens(a, r):
+        s = z3.String('s!ens'); j = z3.Int('j!ens')
+        view = E.EMPTY if r.sort == 'litlist' and not r.x else (r.t if r.sort == 'set' else None)
+        if view is None: return z3.BoolVal(False)
+        return z3.ForAll([s], view[s] == z3.Exists([j], z3.And(0 <= j, j < N_MEMBERS, MEMBER_ANS(j)[s])))
+    params = {'self': Val('composite', x={}), '_composite_filters': down}
+    params['stix_id' if method == 'all_versions' else 'query'] = 'str' if method == 'all_versions' else 'opaque'
+    c = Contract(f'stix2/datastore/__init__.py::CompositeDataSource.{method}', props=['C18', 'C12'], params=params,
+                 requires=[('members', lambda a: N_MEMBERS >= 0)],
+                 ensures=[('the answer is the union of what the members answer (each distinct (id, version) once)', ens)],
+                 raises={'AttributeError': lambda a: N_MEMBERS == 0},
+                 handlers={'self.has_data_sources': h_has, 'FilterSet': h_filterset, 'deduplicate': h_dedup, 'len': h_len},
+                 registry_ext={'attrs': {('composite', 'data_sources'): attr_ds, ('composite', 'filters'): attr_filters},
+                               'methods': {('.add', 'set'): rebinding(m_fs_add), ('.extend', 'litlist'): rebinding(m_extend), ('.extend', 'set'): rebinding(m_extend),
+                                           ('.' + method, 'member'): m_member_call}},
+                 loops={0: {'kind': 'inv', 'inv': inv}},
+                 havoc={'all_data': lambda v: SetV(z3.FreshConst(E.SetS, 'all_data')), 'data': lambda v: SetV(z3.FreshConst(E.SetS, 'data'))},
+                 assumptions=['callee contracts: FilterSet.add (proved: view after == view before | argument), deduplicate (proved: same set of (id, version) identities), the members\' own '
+                              f'{method} (an arbitrary answer per member); a FilterSet is abstracted to the set of its filters, answers to sets of (id, version) identities'])
+    return c
